@@ -355,7 +355,9 @@ where
                         if ctx.hang_secs.is_some() {
                             *current[w].lock().unwrap() = Some(case.clone());
                         }
+                        let t_case = Instant::now();
                         let rep = run(&case);
+                        let slow_case = t_case.elapsed() > std::time::Duration::from_millis(1500);
                         beats[w].fetch_add(1, Ordering::Relaxed);
                         let failed_already = FAILED.with(|f| f.get());
                         if !failed_already {
@@ -364,7 +366,9 @@ where
                         match rep.fail {
                             Some(fi) => {
                                 FAILED.with(|f| f.set(true));
-                                if is_slow_failure(&fi) {
+                                // a failing case that takes seconds (it waited for something that never came) is
+                                // reported as generated: shrinking would re-run it dozens of times
+                                if is_slow_failure(&fi) || slow_case {
                                     SKIP_SHRINK.with(|f| f.set(true));
                                     let mut g = found.lock().unwrap();
                                     if g.is_none() {
